@@ -3,6 +3,7 @@
    boolean(0) = false, boolean(1) = true, for EVERY 64-bit engine state. *)
 From Coq Require Import ZArith Reals Lia Lra Bool.
 From Flocq Require Import Core IEEE754.BinarySingleNaN.
+From Flocq Require Import Plus_error.
 From VV Require Import Base.F64 Rng.RngDefs Rng.RngProofs Rng.DistDefs.
 Local Open Scope R_scope.
 
@@ -169,4 +170,166 @@ Proof.
     2:{ rewrite Rabs_R1. change 1 with (bpow radix2 0). apply bpow_lt. lia. }
     destruct M as (M1 & M2 & _). rewrite Fp, F1 in M2. cbn [andb] in M2.
     unfold F64.ltb, F64.mul. rewrite (cmp_finite _ _ Fs M2), Bs, M1. rewrite Rcompare_Lt by exact U1. reflexivity.
+Qed.
+
+(* ------------------------------------------------------------ uniform_real_distribution stays in [lo, hi] *)
+Notation F64fmt := (generic_format radix2 fexp64).
+
+Lemma fexp64_FLT : fexp64 = FLT_exp (-1074) 53.
+Proof. reflexivity. Qed.
+
+Local Instance prec53 : Prec_gt_0 53 := prec_gt_0_53.
+
+Lemma rnd64_N : forall x, rnd64 x = round radix2 fexp64 (Znearest (fun z => negb (Z.even z))) x.
+Proof. reflexivity. Qed.
+
+Lemma rnd_ge0 : forall x, 0 <= x -> 0 <= rnd64 x.
+Proof. intros x Hx. rewrite <- (round_0 radix2 fexp64 (round_mode mode_NE)). apply round_le; auto with typeclass_instances. Qed.
+
+Lemma rnd_id : forall x, F64fmt x -> rnd64 x = x.
+Proof. intros. apply round_generic; auto with typeclass_instances. Qed.
+
+Lemma rnd_mono : forall x y, x <= y -> rnd64 x <= rnd64 y.
+Proof. intros. apply round_le; auto with typeclass_instances. Qed.
+
+Lemma unit_le_pred1 : forall U, F64fmt U -> U < 1 -> U <= 1 - bpow radix2 (-53).
+Proof.
+  intros U FU HU.
+  assert (F1 : F64fmt 1) by (change 1 with (bpow radix2 0); apply fmt_bpow; lia).
+  pose proof (pred_ge_gt radix2 fexp64 U 1 FU F1 HU) as H.
+  change 1 with (bpow radix2 0) in H at 1. rewrite pred_bpow in H. exact H.
+Qed.
+
+(* the heart of uniform_real_distribution: u * fl(H - L), rounded, never exceeds the exact H - L *)
+Lemma scaled_le_width : forall L H U, F64fmt L -> F64fmt H -> L < H -> F64fmt U -> 0 <= U < 1 ->
+  0 <= rnd64 (U * rnd64 (H - L)) <= H - L.
+Proof.
+  intros L H U FL FH HLH FU [U0 U1].
+  set (D := H - L). assert (D0 : 0 < D) by (unfold D; lra).
+  set (dr := rnd64 D). assert (dr0 : 0 <= dr) by (apply rnd_ge0; lra).
+  assert (Fdr : F64fmt dr) by (apply generic_format_round; auto with typeclass_instances).
+  pose proof (unit_le_pred1 U FU U1) as Up.
+  assert (B53 : 0 < bpow radix2 (-53)) by apply bpow_gt_0.
+  split; [apply rnd_ge0; apply Rmult_le_pos; assumption|].
+  destruct (Rle_or_lt dr D) as [A|B].
+  - apply Rle_trans with dr; [|exact A]. rewrite <- (rnd_id dr Fdr) at 2. apply rnd_mono. nra.
+  - (* dr > D: D is not representable and dr is its upward rounding *)
+    assert (NF : ~ F64fmt D) by (intro FD; unfold dr in B; rewrite (rnd_id D FD) in B; lra).
+    assert (DNle : round radix2 fexp64 Zfloor D <= D).
+    { apply (round_DN_pt radix2 fexp64 D). }
+    assert (UPdr : dr = round radix2 fexp64 Zceil D).
+    { destruct (round_DN_or_UP radix2 fexp64 (round_mode mode_NE) D) as [E|E]; [|exact E].
+      fold dr in E. lra. }
+    set (pd := pred radix2 fexp64 dr).
+    assert (Epd : pd = round radix2 fexp64 Zfloor D) by (unfold pd; rewrite UPdr; apply pred_UP_eq_DN; auto with typeclass_instances).
+    assert (Fpd : F64fmt pd) by (apply generic_format_pred; auto with typeclass_instances).
+    assert (pdD : pd <= D) by (rewrite Epd; exact DNle).
+    assert (drpos : 0 < dr) by lra.
+    (* small differences are exact, so D is large *)
+    assert (Dbig : bpow radix2 (-1021) < D).
+    { apply Rnot_le_lt. intro Hs. apply NF. unfold D. replace (H - L) with (H + - L) by ring.
+      assert (Hsm : generic_format radix2 (FLT_exp (-1074) 53) (H + - L)).
+      { apply FLT_format_plus_small.
+        - exact prec53.
+        - exact FH.
+        - apply generic_format_opp. exact FL.
+        - replace (H + - L) with D by (unfold D; ring). rewrite Rabs_pos_eq by lra. exact Hs. }
+      exact Hsm. }
+    assert (pdbig : bpow radix2 (-1021) <= pd).
+    { rewrite Epd. rewrite <- (round_generic radix2 fexp64 Zfloor (bpow radix2 (-1021))) by (apply fmt_bpow; lia).
+      apply round_le; auto with typeclass_instances. lra. }
+    assert (P1021 : 0 < bpow radix2 (-1021)) by apply bpow_gt_0.
+    assert (Hulp : pd + ulp radix2 fexp64 pd = dr) by (apply pred_plus_ulp; auto with typeclass_instances).
+    assert (Hul : ulp radix2 fexp64 pd <= pd * bpow radix2 (1 - 53)).
+    { rewrite fexp64_FLT. rewrite <- (Rabs_pos_eq pd) at 2 by lra. apply ulp_FLT_le.
+      rewrite Rabs_pos_eq by lra. apply Rle_trans with (2 := pdbig). apply bpow_le. lia. }
+    assert (E52 : bpow radix2 (1 - 53) = 2 * bpow radix2 (-53)).
+    { change (1 - 53)%Z with (1 + -53)%Z. rewrite bpow_plus. reflexivity. }
+    apply Rle_trans with pd; [|exact pdD].
+    rewrite rnd64_N. apply round_N_le_midp; [exact fexp64_valid|exact Fpd|].
+    replace (succ radix2 fexp64 pd) with dr by (unfold pd; symmetry; apply succ_pred; auto with typeclass_instances).
+    nra.
+Qed.
+
+Lemma lt_emax_of_bool : forall x, Rlt_bool (Rabs x) (bpow radix2 1024) = true -> Rabs x < bpow radix2 1024.
+Proof. intros x H. destruct (Rlt_bool_spec (Rabs x) (bpow radix2 1024)); [assumption|discriminate H]. Qed.
+
+Lemma between_lt_emax : forall a x b, Rabs a < bpow radix2 1024 -> Rabs b < bpow radix2 1024 -> a <= x <= b ->
+  Rlt_bool (Rabs x) (bpow radix2 1024) = true.
+Proof.
+  intros a x b Ha Hb [H1 H2]. apply Rlt_bool_true. apply Rabs_def2 in Ha. apply Rabs_def2 in Hb. apply Rabs_def1; lra.
+Qed.
+
+(* std::uniform_real_distribution<double>(lo, hi)(engine), lo < hi with a finite width: a finite double in [lo, hi] *)
+Lemma uniform_real_in : forall lo hi st, wf st ->
+  is_finite lo = true -> is_finite hi = true -> B2R lo < B2R hi -> is_finite (F64.sub hi lo) = true ->
+  let v := fst (uniform_real lo hi st) in
+  is_finite v = true /\ B2R lo <= B2R v <= B2R hi.
+Proof.
+  intros lo hi st Hw Flo Fhi Hlt Fd. cbv zeta. unfold uniform_real.
+  pose proof (canonical_unit st Hw) as (Fu & [U0 U1] & _). destruct (canonical st) as [u st']. cbn [fst] in *.
+  set (L := B2R lo) in *. set (H := B2R hi) in *. set (U := B2R u) in *.
+  assert (FL : F64fmt L) by apply generic_format_B2R.
+  assert (FH : F64fmt H) by apply generic_format_B2R.
+  assert (FU : F64fmt U) by apply generic_format_B2R.
+  pose proof (scaled_le_width L H U FL FH Hlt FU (conj U0 U1)) as [Y0 Y1].
+  (* d = hi - lo *)
+  unfold F64.sub in *.
+  pose proof (Bminus_correct 53 1024 prec_gt_0_53 prec_lt_emax_53 mode_NE hi lo Fhi Flo) as S. fold L H in S.
+  destruct (Rlt_bool (Rabs (rnd64 (H - L))) (bpow radix2 1024)) eqn:Eov.
+  2:{ exfalso. destruct S as [S _]. unfold binary_overflow, overflow_to_inf in S.
+      destruct (Bminus mode_NE hi lo); try discriminate Fd; discriminate S. }
+  destruct S as (S1 & S2 & _). apply lt_emax_of_bool in Eov.
+  set (d := @Bminus 53 1024 prec_gt_0_53 prec_lt_emax_53 mode_NE hi lo) in *.
+  assert (dr0 : 0 <= rnd64 (H - L)) by (apply rnd_ge0; lra).
+  (* y = u * d *)
+  unfold F64.mul.
+  pose proof (Bmult_correct 53 1024 prec_gt_0_53 prec_lt_emax_53 mode_NE u d) as M. fold U in M. rewrite S1 in M.
+  assert (Ydr : rnd64 (U * rnd64 (H - L)) <= rnd64 (H - L)).
+  { rewrite <- (rnd_id (rnd64 (H - L))) at 2 by (apply generic_format_round; auto with typeclass_instances).
+    apply rnd_mono. nra. }
+  rewrite Rlt_bool_true in M.
+  2:{ rewrite Rabs_pos_eq by exact Y0. rewrite Rabs_pos_eq in Eov by exact dr0. lra. }
+  destruct M as (M1 & M2 & _). rewrite Fu, S2 in M2. cbn [andb] in M2.
+  set (y := @Bmult 53 1024 prec_gt_0_53 prec_lt_emax_53 mode_NE u d) in *.
+  (* v = y + lo *)
+  unfold F64.add.
+  pose proof (Bplus_correct 53 1024 prec_gt_0_53 prec_lt_emax_53 mode_NE y lo M2 Flo) as P. fold L in P. rewrite M1 in P.
+  assert (V : L <= rnd64 (rnd64 (U * rnd64 (H - L)) + L) <= H).
+  { split.
+    - rewrite <- (rnd_id L FL) at 1. apply rnd_mono. lra.
+    - rewrite <- (rnd_id H FH) at 2. apply rnd_mono. lra. }
+  rewrite (between_lt_emax L _ H (abs_B2R_lt_emax 53 1024 lo) (abs_B2R_lt_emax 53 1024 hi) V) in P.
+  destruct P as (P1 & P2 & _). split; [exact P2|]. rewrite P1. exact V.
+Qed.
+
+(* vita::random::between<double>(lo, hi) for an interval of finite width (the ordinary branch) *)
+Lemma between_real_in : forall lo hi st, wf st ->
+  is_finite lo = true -> is_finite hi = true -> B2R lo < B2R hi -> is_finite (F64.sub hi lo) = true ->
+  let v := fst (between_real lo hi st) in
+  is_finite v = true /\ F64.leb lo v = true /\ F64.leb v hi = true.
+Proof.
+  intros lo hi st Hw Flo Fhi Hlt Fd. cbv zeta. unfold between_real, F64.is_finite. rewrite Fd.
+  destruct (uniform_real_in lo hi st Hw Flo Fhi Hlt Fd) as [Fv [V1 V2]].
+  destruct (uniform_real lo hi st) as [v st']. cbn [fst] in *.
+  split; [exact Fv|]. unfold F64.leb. rewrite (cmp_finite lo v Flo Fv), (cmp_finite v hi Fv Fhi).
+  split.
+  - destruct (Rcompare_spec (B2R lo) (B2R v)); try reflexivity. lra.
+  - destruct (Rcompare_spec (B2R v) (B2R hi)); try reflexivity. lra.
+Qed.
+
+Lemma ltb_B2R : forall a b, is_finite a = true -> is_finite b = true -> F64.ltb a b = true -> B2R a < B2R b.
+Proof.
+  intros a b Fa Fb H. unfold F64.ltb in H. rewrite (cmp_finite a b Fa Fb) in H.
+  destruct (Rcompare_spec (B2R a) (B2R b)); try discriminate H. assumption.
+Qed.
+
+(* the H_draws contract for reals, stated with the library's own predicates *)
+Lemma between_real_contract : forall lo hi st, wf st ->
+  F64.is_finite lo = true -> F64.is_finite hi = true -> F64.ltb lo hi = true -> F64.is_finite (F64.sub hi lo) = true ->
+  F64.leb lo (fst (between_real lo hi st)) = true /\ F64.leb (fst (between_real lo hi st)) hi = true /\
+  F64.is_finite (fst (between_real lo hi st)) = true.
+Proof.
+  intros lo hi st Hw Flo Fhi Hlt Fd.
+  destruct (between_real_in lo hi st Hw Flo Fhi (ltb_B2R lo hi Flo Fhi Hlt) Fd) as (A & B & C). auto.
 Qed.
